@@ -2997,7 +2997,7 @@ pub struct VerifState {
     /// key of the mask cache, if an entry is stored: (lexer state id, row index, has pending)
     pub cache_key: Option<(u32, u32, bool)>,
     pub lexer_stack_top_eos: bool,
-    /// lexemes scanned when each row 1..row_infos.len() was pushed (definitive rows only); row 0 is the start row
+    /// lexemes scanned from row i to row i + 1, for the definitive rows
     pub row_lexemes: Vec<Vec<u32>>,
 }
 
@@ -3048,9 +3048,11 @@ impl Parser {
             lexer_stack_top_eos: s.lexer_stack_top_eos,
             row_lexemes: {
                 let sh = self.shared.lock().unwrap();
+                // row_infos[i].lexeme is the lexeme scanned from row i (stored when row i + 1 is added);
+                // the entry of the top row is still a placeholder
                 s.row_infos
                     .iter()
-                    .skip(1)
+                    .take(s.row_infos.len().saturating_sub(1))
                     .map(|ri| {
                         sh.lexer()
                             .lexemes_from_idx(ri.lexeme.idx)
